@@ -57,27 +57,31 @@ fn c05_table_offset_at() {
     }
 }
 
-// @ob tier=quick timeout=2400 mem=14
-// @desc wall-clock lookup on the transition table (one transition): the answer is classified against the set of instants t with t + offset_at(t) == local: a wall-clock time inside a fold yields Ambiguous(earlier instant first) with both offsets correct, one strictly inside a gap yields None, every other time yields the single correct offset -- the single boundary second that ends a gap or a fold excepted, as the property states; a transition that changes only the DST flag (equal offsets) must yield exactly one result
-// @bounds zones with exactly 1 transition (|t| < 2^40) between 2 types with offsets in (-26h, 26h); all wall-clock times within +-2^41 s of the epoch at one-second resolution
+// @ob tier=quick timeout=900 mem=14 kf=F12
+// @desc wall-clock lookup on the transition table (one transition): the answer is classified against the set of instants t with t + offset_at(t) == local: a wall-clock time inside a fold yields Ambiguous with both offsets, EARLIEST instant first (the larger offset), one strictly inside a gap yields None, every other time yields the single correct offset -- the single boundary second that ends a gap or a fold excepted, as the property states; a transition that changes only the DST flag (equal offsets) must yield exactly one result
+// @bounds zones with exactly 1 transition between 2 types with offsets in (-26h, 26h); wall-clock times on the (concrete) day 2000-01-01 at one-second resolution and transition instants within one day before / two days after it -- the classification only compares second counts, the calendar date is irrelevant to it
 // @funcs TimeZoneRef::find_local_time_type_from_local, hook Zone::{from_parts_n, offsets_for_local}
-// @outside more than one transition in this harness
+// @outside more than one transition; other dates (same comparisons on other second counts)
 #[kani::proof]
 #[kani::unwind(3)]
 fn c05_table_local_one() {
+    const DAY0: i64 = 946_684_800; // 2000-01-01T00:00:00Z
     let (o0, o1) = (any_off(), any_off());
     let tt: i64 = kani::any();
-    kani::assume(tt > -T_LIM && tt < T_LIM);
+    kani::assume(tt >= DAY0 - 86_400 && tt < DAY0 + 3 * 86_400);
     let z = Zone::from_parts_n(1, [(tt, 1), (0, 0)], [(o0, false), (o1, true)]).unwrap();
-    let l: i64 = kani::any();
-    kani::assume(l > -2 * T_LIM && l < 2 * T_LIM);
-    let local = DateTime::from_timestamp(l, 0).unwrap().naive_utc();
+    let s: u32 = kani::any();
+    kani::assume(s < 86_400);
+    let l = DAY0 + s as i64;
+    let local = chrono::NaiveDate::from_ymd_opt(2000, 1, 1).unwrap().and_time(chrono::NaiveTime::from_num_seconds_from_midnight_opt(s, 0).unwrap());
     let r = z.offsets_for_local(local).unwrap();
     // instants that read `l` on the wall clock: before the transition (t < tt, offset o0), after (t >= tt, offset o1)
     let before = l - (o0 as i64) < tt; // candidate t0 = l - o0 is valid iff t0 < tt
     let after = l - (o1 as i64) >= tt; // candidate t1 = l - o1 is valid iff t1 >= tt
-    // boundary second: the wall-clock second that ends the gap / fold
-    let boundary = l == tt + (o0 as i64) || l == tt + (o1 as i64);
+    // The property excepts the single boundary second that ENDS a gap or fold. For a fold (o0 > o1) that is tt + o0;
+    // the second tt + o1 that opens it occurs twice and must be Ambiguous. For a gap (o1 > o0) the interval of skipped
+    // readings is [tt + o0, tt + o1): "strictly inside" leaves both end points unconstrained.
+    let boundary = if o1 > o0 { l == tt + (o0 as i64) || l == tt + (o1 as i64) } else { l == tt + (o0 as i64) };
     if !boundary {
         match r {
             LocalResult::Single(o) => {
@@ -86,8 +90,10 @@ fn c05_table_local_one() {
             }
             LocalResult::Ambiguous(a, b) => {
                 assert!(before && after && o0 != o1);
-                // earliest instant first: the larger offset gives the earlier instant
-                assert!(a > b && (a == o0 || a == o1) && (b == o0 || b == o1));
+                assert!((a == o0 && b == o1) || (a == o1 && b == o0));
+                // (earliest, latest): the larger offset denotes the earlier instant
+                crate::known_finding!("kf_F12", "kfonly_F12", a < b);
+                assert!(a > b);
             }
             LocalResult::None => assert!(!before && !after),
         }
